@@ -60,6 +60,8 @@ type Spec struct {
 	// Mode "resub": Periods subscription periods on ONE subscriber transport
 	// object (resub.go).
 	Periods int `json:"periods,omitempty"`
+	// VaryTopic (resub): every period subscribes to another topic.
+	VaryTopic bool `json:"vary_topic,omitempty"`
 	Mode   string    `json:"mode,omitempty"`
 	Subs   []SubSpec `json:"subs,omitempty"`
 }
@@ -406,6 +408,9 @@ func shapeOf(s *Spec) string {
 	}
 	if s.Mode == "resub" && s.Probe == "" {
 		fl += fmt.Sprintf("+resub%d", s.Periods)
+		if s.VaryTopic {
+			fl += "+varytopic"
+		}
 	}
 	op := s.Op
 	if (s.Mode == "shared" || s.Mode == "concurrent" || s.Mode == "nested") && s.Probe == "" {
@@ -872,6 +877,8 @@ func (q *seqRun) role(x *subscriber, m *msg) string {
 			return "ignore"
 		case m.Target.idx > x.idx:
 			return "forbidden:delivered-after-unsubscribe"
+		case m.Target.idx < x.idx && m.Target.topic != x.topic:
+			return "forbidden:foreign-topic-delivered:topic-of-an-earlier-subscription-period-of-the-transport"
 		case m.Target.idx < x.idx:
 			// every period is settled before its Unsubscribe: this is a second delivery
 			return "forbidden:message-of-an-earlier-subscription-period-delivered-again"
